@@ -217,7 +217,10 @@ func genRun(w *bufio.Writer, rng *rand.Rand, run int, stats map[string]int) {
 			}
 		case 4: // response from the primary
 			p = &Payload{dbft.PrepareResponseType, h, v, pi, prepResp{randHash()}}
-		case 5: // pre-commit (only inadmissible while anti-MEV is off)
+		case 5: // pre-commit while anti-MEV is off (admissible otherwise: forging an identity is outside the model)
+			if amevOn(n, h) {
+				return
+			}
 			p = &Payload{dbft.PreCommitType, h, v, other, preCommit{sigv{int(other) + 100, randHash()}}}
 		case 6: // unrequested transaction
 			before := n.height
